@@ -161,16 +161,20 @@ theorem cn_step_sb (d : Bytes) {s : PState} {obj sb : Nat} (hl : live s.tree sb 
   rw [if_pos (Or.inr (Or.inr (Or.inr hop)))]
   rfl
 
-/-- the loop body on a `Device` object: it gets its name; its arguments stay as they are (no term argument to attach) -/
-theorem cn_step_dev (d : Bytes) {s : PState} {p x c sb off : Nat} {seg : List UInt8} (w : WF s.tree)
+/-- the loop body on a named object whose first argument is its name path and whose row has no term argument: it gets its
+name; its arguments stay as they are -/
+theorem cn_step_named (d : Bytes) (op : Nat) {ex df : Bool} {ac : Nat} {args : List Nat}
+    (hrow : rowSummary op = some (true, ex, df, ac, args))
+    (hnoterm : ∀ k, k < ac → args.getD k 0 ≠ argTypeTermArg ∧ args.getD k 0 ≠ argTypeDataRefObj) (hsb : op ≠ opIntScopeBlock)
+    {s : PState} {p x c off : Nat} {rest : List Nat} {seg : List UInt8} (w : WF s.tree)
     (hx : live s.tree x = true) (hc : live s.tree c = true)
-    (hop : (slot s.tree x).opcode = 385) (hinf : (slot s.tree x).infoIndex = pOpcodeTableIndex 385 true)
-    (hth : (slot s.tree x).tableHandle = s.tableHandle) (hkx : K s.tree x = [c, sb])
+    (hop : (slot s.tree x).opcode = op) (hinf : (slot s.tree x).infoIndex = pOpcodeTableIndex op true)
+    (hth : (slot s.tree x).tableHandle = s.tableHandle) (hkx : K s.tree x = c :: rest)
     (hval : (slot s.tree c).value = .bytes off 4) (hb : BytesAt d off seg) (hsg : seg.length = 4) :
     ∃ s', connectNamedStep d p x s = .ok (.inr (), s') ∧ s' = { s with tree := s'.tree } ∧ SameLinks s.tree s'.tree ∧
       (∀ y, y ≠ x → slot s'.tree y = slot s.tree y) ∧
       Pay (slot s'.tree x) = Pay { slot s.tree x with name := Name.ofList seg } := by
-  obtain ⟨fl, a1, a2, a3, a4, a5, a6, a7, a8⟩ := rowSummary_spec row_385
+  obtain ⟨fl, a1, a2, a3, a4, a5, a6, a7, a8⟩ := rowSummary_spec hrow
   let f : AmlTree.Obj → AmlTree.Obj := fun o => { o with name := Name.ofList seg }
   have sl : SameLinks s.tree (setAt s.tree x f) := sameLinks_setAt s.tree x f (by keeps_links) Iff.rfl
   refine ⟨{ s with tree := setAt s.tree x f }, ?_, rfl, sl, ?_, ?_⟩
@@ -187,7 +191,7 @@ theorem cn_step_dev (d : Bytes) {s : PState} {p x c sb off : Nat} {seg : List UI
       · have : Fi s.tree x = INV := hq
         rw [hfi] at this
         exact live_ne_INV w.size_le hc this
-      · revert hq; decide
+      · exact hsb hq
     rw [if_neg hcond]
     have hfi' : (slot s.tree x).firstArgIndex = c := hfi
     rw [hfi', bind_run (objectAt_live' hc), bind_run (derefP_some_ex _), bind_run (getObj_live hc), hval]
@@ -202,13 +206,12 @@ theorem cn_step_dev (d : Bytes) {s : PState} {p x c sb off : Nat} {seg : List UI
     have ht1 : s1.tree = setAt s.tree x f := by rw [← hs1]
     have w1' : WF s1.tree := by rw [ht1]; exact wf_of_sameLinks w sl
     have hx1 : live s1.tree x = true := by rw [ht1, sl.live]; exact hx
-    rw [a5, bind_run (optP_ex 3 s1)]
-    have hno : ∀ j, j < 3 → argAt (pOpcodeTableIndex 385 true) j ≠ argTypeTermArg ∧ argAt (pOpcodeTableIndex 385 true) j ≠ argTypeDataRefObj := by
+    rw [a5, bind_run (optP_ex ac s1)]
+    have hno : ∀ j, j < ac → argAt (pOpcodeTableIndex op true) j ≠ argTypeTermArg ∧ argAt (pOpcodeTableIndex op true) j ≠ argTypeDataRefObj := by
       intro j hj
       rw [a8 j hj]
-      have : j = 0 ∨ j = 1 ∨ j = 2 := by omega
-      rcases this with e | e | e <;> rw [e] <;> decide
-    rw [bind_run (firstTermArg_noTerm a6 3 hno 3 0 s1 (by omega)), bind_run (numArgs_kids w1' hx1)]
+      exact hnoterm j hj
+    rw [bind_run (firstTermArg_noTerm a6 ac hno ac 0 s1 (by omega)), bind_run (numArgs_kids w1' hx1)]
     rw [if_pos (Or.inr (Nat.le_refl _))]
     rfl
   · intro y hy
@@ -217,12 +220,37 @@ theorem cn_step_dev (d : Bytes) {s : PState} {p x c sb off : Nat} {seg : List UI
   · show Pay (slot (setAt s.tree x f) x) = _
     rw [slot_setAt', if_pos ⟨rfl, live_lt hx⟩]
 
+theorem blk_noterm (kd : BKind) : ∀ k, k < kd.ws.length + 3 →
+    ([15, 9] ++ kd.ws.map argTy ++ [1]).getD k 0 ≠ argTypeTermArg ∧ ([15, 9] ++ kd.ws.map argTy ++ [1]).getD k 0 ≠ argTypeDataRefObj := by
+  intro k hk
+  cases kd
+  · have : k = 0 ∨ k = 1 ∨ k = 2 := by simp [BKind.ws] at hk; omega
+    rcases this with e | e | e <;> subst e <;> decide
+  · have : k = 0 ∨ k = 1 ∨ k = 2 := by simp [BKind.ws] at hk; omega
+    rcases this with e | e | e <;> subst e <;> decide
+  · have : k = 0 ∨ k = 1 ∨ k = 2 ∨ k = 3 ∨ k = 4 ∨ k = 5 := by simp [BKind.ws] at hk; omega
+    rcases this with e | e | e | e | e | e <;> subst e <;> decide
+  · have : k = 0 ∨ k = 1 ∨ k = 2 ∨ k = 3 ∨ k = 4 := by simp [BKind.ws] at hk; omega
+    rcases this with e | e | e | e | e <;> subst e <;> decide
+
+/-- the loop body on a `Device` / `ThermalZone` / `Processor` / `PowerResource` object -/
+theorem cn_step_dev (d : Bytes) (kd : BKind) {s : PState} {p x c off : Nat} {seg : List UInt8} (w : WF s.tree)
+    (hx : live s.tree x = true) (hc : live s.tree c = true)
+    (hop : (slot s.tree x).opcode = kd.op) (hinf : (slot s.tree x).infoIndex = pOpcodeTableIndex kd.op true)
+    (hth : (slot s.tree x).tableHandle = s.tableHandle) {rest : List Nat} (hkx : K s.tree x = c :: rest)
+    (hval : (slot s.tree c).value = .bytes off 4) (hb : BytesAt d off seg) (hsg : seg.length = 4) :
+    ∃ s', connectNamedStep d p x s = .ok (.inr (), s') ∧ s' = { s with tree := s'.tree } ∧ SameLinks s.tree s'.tree ∧
+      (∀ y, y ≠ x → slot s'.tree y = slot s.tree y) ∧
+      Pay (slot s'.tree x) = Pay { slot s.tree x with name := Name.ofList seg } :=
+  cn_step_named d kd.op (row_blk kd) (blk_noterm kd) kd.op_ne.2.2.2.2.2.1 w hx hc hop hinf hth hkx hval hb hsg
+
 /-! ## bookkeeping for node lists -/
 
 mutual
 def sizeN : Node → Nat
-  | .name _ _ _ _ _ => 1
-  | .dev _ _ _ _ _ _ kids => 1 + sizeL kids
+  | .name _ _ _ _ _ _ => 1
+  | .dev kd _ _ _ _ _ _ _ kids => 1 + kd.ws.length + sizeL kids
+  | .leaf _ _ _ _ _ _ => 1
 def sizeL : List Node → Nat
   | [] => 0
   | n :: ns => sizeN n + sizeL ns
@@ -239,7 +267,8 @@ theorem tops_append (dn : Bool) (a b : List Node) : tops dn (a ++ b) = tops dn a
   | cons n a ih =>
     cases n with
     | name x c k off q => simp only [List.cons_append, tops, ih, List.append_assoc]
-    | dev x c sb off pw seg kids => simp only [List.cons_append, tops, ih]
+    | dev kd x c sb off pw seg es kids => simp only [List.cons_append, tops, ih]
+    | leaf kd x c off seg es => simp only [List.cons_append, tops, ih]
 
 theorem tops_len_le (dn : Bool) (a : List Node) : (tops dn a).length ≤ 2 * sizeL a := by
   induction a with
@@ -249,7 +278,8 @@ theorem tops_len_le (dn : Bool) (a : List Node) : (tops dn a).length ≤ 2 * siz
     | name x c k off q =>
       simp only [tops, sizeL, sizeN, List.length_append]
       cases dn <;> simp <;> omega
-    | dev x c sb off pw seg kids => simp only [tops, sizeL, sizeN, List.length_cons]; omega
+    | dev kd x c sb off pw seg es kids => simp only [tops, sizeL, sizeN, List.length_cons]; omega
+    | leaf kd x c off seg es => simp only [tops, sizeL, sizeN, List.length_cons]; omega
 
 theorem objsL_append (a b : List Node) : objsL (a ++ b) = objsL a ++ objsL b := by
   induction a with
@@ -284,11 +314,11 @@ theorem cn_iter' (d : Bytes) (f : Nat) {s s1 s2 : PState} {obj y : Nat} (w : WF 
 /-! ## one node -/
 
 /-- **one `Name` declaration under the scope block `p`**: the loop passes the integer, reaches the `Name` object, connects -/
-theorem cnl_name (d : Bytes) {s : PState} {h p x c k off : Nat} {q : Decl} {A R : List Nat} (w : WF s.tree)
-    (lp : live s.tree p = true) (hk : K s.tree p = (A ++ [x]) ++ k :: R) (io : NameT d s.tree h p x c k off q false)
+theorem cnl_name (d : Bytes) {s : PState} {h p x c k off : Nat} {seg : List UInt8} {dv : DVal} {A R : List Nat} (w : WF s.tree)
+    (lp : live s.tree p = true) (hk : K s.tree p = (A ++ [x]) ++ k :: R) (io : NameT d s.tree h p x c k off seg dv false)
     (hth : s.tableHandle = h) (hxc : x ≠ c) (hxk : x ≠ k) (hck : c ≠ k) (g : Nat) :
     ∃ s1, connectNamedLoop d (g + 6) p k s = connectNamedLoop d (g + 4) p (lastOf A) s1 ∧ s1 = { s with tree := s1.tree } ∧
-      WF s1.tree ∧ (∀ y, live s1.tree y = live s.tree y) ∧ K s1.tree p = A ++ x :: R ∧ NameT d s1.tree h p x c k off q true ∧
+      WF s1.tree ∧ (∀ y, live s1.tree y = live s.tree y) ∧ K s1.tree p = A ++ x :: R ∧ NameT d s1.tree h p x c k off seg dv true ∧
       (∀ y, live s.tree y = true → y ≠ x → y ≠ c → y ≠ k → y ≠ p → SameAt s.tree s1.tree y) ∧
       Pay (slot s1.tree p) = Pay (slot s.tree p) ∧ C13.P s1.tree p = C13.P s.tree p ∧
       (∀ y, (slot s1.tree y).infoIndex = (slot s.tree y).infoIndex) ∧ s1.tree.pool.size = s.tree.pool.size := by
@@ -312,8 +342,7 @@ theorem cnl_name (d : Bytes) {s : PState} {h p x c k off : Nat} {q : Decl} {A R 
     rw [this]; rfl
   have hik : InfoOK (slot s.tree k).infoIndex := by
     rw [io.infk]
-    obtain ⟨_, _, _, _, _, _, _, hi, _⟩ := const_row q.w q.v
-    exact hi
+    exact dval_info dv
   have hic : InfoOK (slot s.tree c).infoIndex := by
     rw [io.infc]; exact (rowSummary_spec row_507).choose_spec.2.2.2.2.2.1
   have e1 := cn_iter d (g + 5) (obj := p) w io.lk io.lk (cn_leaf d (g + 3) w io.lk io.kk)
@@ -344,7 +373,7 @@ theorem cnl_name (d : Bytes) {s : PState} {h p x c k off : Nat} {q : Decl} {A R 
       by rw [pay_opcode pc]; exact io.opc, by rw [pay_info pc]; exact io.infc, by rw [pay_handle pc]; exact io.thc,
       by rw [pay_value pc]; exact io.valc,
       by rw [pay_opcode pk]; exact io.opk, by rw [pay_info pk]; exact io.infk, by rw [pay_handle pk]; exact io.thk,
-      io.int.of_pay pk, by rw [hK' _ io.lx, if_pos rfl]; rfl,
+      io.dat.of_pay pk, by rw [hK' _ io.lx, if_pos rfl]; rfl,
       by rw [hK' _ io.lc, if_neg (fun e => hxc e.symm), if_neg hcp]; exact io.kc,
       by rw [hK' _ io.lk, if_neg (fun e => hxk e.symm), if_neg hkp]; exact io.kk,
       by rw [hP', if_neg hxk]; exact io.px, by rw [hP', if_neg hck]; exact io.pc,
@@ -383,19 +412,48 @@ theorem sameAt_of_links {t t' : ObjectTree} (w : WF t) (sl : SameLinks t t') {y 
 theorem loop_inv (d : Bytes) (f : Nat) (obj : Nat) (s : PState) : connectNamedLoop d (f + 1) obj INV s = .ok (PRes.ok, s) := by
   rw [connectNamedLoop, if_pos inv_eq]; rfl
 
+/-- the reverse loop over childless children of any object: nothing happens -/
+theorem cn_leaves_p (d : Bytes) {s : PState} {p : Nat} (w : WF s.tree) (h0 : live s.tree p = true) :
+    ∀ (n : Nat) (l rest : List Nat) (f : Nat), l.length = n → K s.tree p = l ++ rest →
+      (∀ y ∈ l, K s.tree y = [] ∧ InfoOK (slot s.tree y).infoIndex) → n + 3 ≤ f →
+      connectNamedLoop d f p (lastOf l) s = .ok (PRes.ok, s) := by
+  intro n
+  induction n with
+  | zero =>
+    intro l rest f hn _ _ hf
+    have : l = [] := List.eq_nil_of_length_eq_zero hn
+    subst this
+    obtain ⟨f', rfl⟩ : ∃ f', f = f' + 1 := ⟨f - 1, by omega⟩
+    exact loop_inv d f' p s
+  | succ n ih =>
+    intro l rest f hn hk hl hf
+    rcases list_snoc_cases l with e | ⟨l', y, e⟩
+    · rw [e] at hn; cases hn
+    · subst e
+      obtain ⟨f', rfl⟩ : ∃ f', f = f' + 3 := ⟨f - 3, by omega⟩
+      have hy := hl y (by simp)
+      have hyl : live s.tree y = true := ((K_mem w h0 y).1 (by rw [hk]; simp)).1
+      rw [lastOf_snoc]
+      rw [cn_iter d (f' + 2) w hyl hyl (cn_leaf d f' w hyl hy.1) (cn_step_leaf d hyl hy.2 (fi_of_nil w hyl hy.1))]
+      have hpv : Pv s.tree y = lastOf l' := pv_of_kids w h0 (pre := l') (post := rest) (by rw [hk]; simp)
+      rw [hpv]
+      exact ih l' (y :: rest) (f' + 2) (by simpa using hn) (by rw [hk]; simp) (fun z hz => hl z (by simp [hz])) (by omega)
+
 /-- **one `Device` under the scope block `p`**, given what the loop does to its contents -/
-theorem cnl_dev (d : Bytes) {s s1 : PState} {h p x c sb off pw : Nat} {seg : List UInt8} {kids : List Node} {A R : List Nat}
+theorem cnl_dev (d : Bytes) {s s1 : PState} {kd : BKind} {h p x c sb off pw : Nat} {seg : List UInt8} {es : List CArg} {kids : List Node}
+    {A R : List Nat}
     (w : WF s.tree) (lp : live s.tree p = true) (hk : K s.tree p = A ++ x :: R)
-    (dt : DevT d s.tree h p x c sb off seg false) (hksb : K s.tree sb = tops false kids) (hth : s.tableHandle = h)
+    (dt : DevT d s.tree h p kd x c sb off seg es false) (hksb : K s.tree sb = tops false kids) (hth : s.tableHandle = h)
     (hxc : x ≠ c) (hxsb : x ≠ sb) (hcsb : c ≠ sb) (hxk : x ∉ objsL kids) (hck : c ∉ objsL kids) (hpk : p ∉ objsL kids)
-    (hpsb : p ≠ sb) (g : Nat) (hg : (tops false kids).length + 2 ≤ g)
+    (hes : ∀ a ∈ es, a.e ≠ x ∧ a.e ≠ sb ∧ a.e ∉ objsL kids)
+    (hpsb : p ≠ sb) (g : Nat) (hg : (tops false kids).length + 2 ≤ g) (hge : es.length + 3 ≤ g)
     (ek : connectNamedLoop d g sb (lastOf ([] ++ tops false kids)) s =
       connectNamedLoop d (g - (tops false kids).length) sb (lastOf []) s1)
     (hs1 : s1 = { s with tree := s1.tree }) (cp : CPost d s.tree s1.tree h sb [] [] kids) :
     ∃ s2, connectNamedLoop d (g + 4) p x s = connectNamedLoop d (g + 3) p (lastOf A) s2 ∧ s2 = { s with tree := s2.tree } ∧
       WF s2.tree ∧ (∀ y, live s2.tree y = live s.tree y) ∧ K s2.tree p = K s.tree p ∧
-      NodeOK d s2.tree h true true p (.dev x c sb off pw seg kids) ∧
-      (∀ y, live s.tree y = true → y ∉ (Node.dev x c sb off pw seg kids).objs → y ≠ p → SameAt s.tree s2.tree y) ∧
+      NodeOK d s2.tree h true true p (.dev kd x c sb off pw seg es kids) ∧
+      (∀ y, live s.tree y = true → y ∉ (Node.dev kd x c sb off pw seg es kids).objs → y ≠ p → SameAt s.tree s2.tree y) ∧
       Pay (slot s2.tree p) = Pay (slot s.tree p) ∧ C13.P s2.tree p = C13.P s.tree p ∧
       (∀ y, (slot s2.tree y).infoIndex = (slot s.tree y).infoIndex) ∧ s2.tree.pool.size = s.tree.pool.size := by
   have hxp : x ≠ p := fun e => by have := dt.px; rw [e] at this; exact wf_P_ne_self w lp this
@@ -413,8 +471,11 @@ theorem cnl_dev (d : Bytes) {s s1 : PState} {h p x c sb off pw : Nat} {seg : Lis
   have lx1 : live s1.tree x = true := by rw [cp.lv]; exact dt.lx
   have lc1 : live s1.tree c = true := by rw [cp.lv]; exact dt.lc
   have lsb1 : live s1.tree sb = true := by rw [cp.lv]; exact dt.lsb
-  have hkx1 : K s1.tree x = [c, sb] := by rw [sx.2.2.2]; exact dt.kx
+  have hkx1 : K s1.tree x = c :: (es.map (·.e) ++ [sb]) := by rw [sx.2.2.2]; exact dt.kx
   have hkc1 : K s1.tree c = [] := by rw [sc.2.2.2]; exact dt.kc
+  have se : ∀ a ∈ es, SameAt s.tree s1.tree a.e := fun a ha =>
+    cp.frame a.e (dt.args a ha).le (hes a ha).2.2 (hes a ha).2.1
+  have args1 : ∀ a ∈ es, ConstT s1.tree h x a := fun a ha => (dt.args a ha).frame (se a ha)
   have hth1 : s1.tableHandle = h := by rw [hs1]; exact hth
   -- the recursion into the device
   have hn : (tops false kids).length < g := by omega
@@ -432,23 +493,27 @@ theorem cnl_dev (d : Bytes) {s s1 : PState} {h p x c sb off pw : Nat} {seg : Lis
   have erec_x : connectNamedObjArgs d (g + 3) x s = .ok (PRes.ok, s1) := by
     rw [connectNamedObjArgs, bind_run (objectAt_live' dt.lx), bind_run (derefP_some_ex _), bind_run (getObj_live dt.lx)]
     show connectNamedLoop d (g + 2) x (La s.tree x) s = _
-    rw [la_of_kids w dt.lx (pre := [c]) dt.kx]
+    rw [la_of_kids w dt.lx (pre := c :: es.map (·.e)) (show K s.tree x = (c :: es.map (·.e)) ++ [sb] by rw [dt.kx]; simp)]
     rw [cn_iter' d (g + 1) w dt.lsb lsb1 erec_sb
       (cn_step_sb d lsb1 (by rw [pay_opcode cp.fp.1]; exact dt.opsb) (by rw [pay_info cp.fp.1]; exact dt.infsb))]
-    have hpv : Pv s1.tree sb = c := by
-      have := pv_of_kids w1 lx1 (pre := [c]) (post := []) hkx1
-      simpa using this
+    have hpv : Pv s1.tree sb = lastOf (c :: es.map (·.e)) :=
+      pv_of_kids w1 lx1 (pre := c :: es.map (·.e)) (post := []) (by rw [hkx1]; simp)
     rw [hpv]
-    have e2 := cn_iter d g (obj := x) w1 lc1 lc1 (by rw [hg2]; exact cn_leaf d g2 w1 lc1 hkc1)
-      (cn_step_leaf d lc1 hic (fi_of_nil w1 lc1 hkc1))
-    rw [e2]
-    have hpvc : Pv s1.tree c = INV := by
-      have := pv_of_kids w1 lx1 (pre := []) (post := [sb]) hkx1
-      simpa using this
-    rw [hpvc, hg2]
-    exact loop_inv d (g2 + 1) x s1
+    have hleaf : ∀ y ∈ c :: es.map (·.e), K s1.tree y = [] ∧ InfoOK (slot s1.tree y).infoIndex := by
+      intro y hy
+      rcases List.mem_cons.1 hy with e | hy
+      · rw [e]; exact ⟨hkc1, hic⟩
+      · obtain ⟨a, ha, e⟩ := List.mem_map.1 hy
+        have ca := args1 a ha
+        rw [← e]
+        refine ⟨ca.ke, ?_⟩
+        rw [ca.inf]
+        obtain ⟨_, _, _, _, _, _, _, hi, _⟩ := const_row a.n a.v
+        exact hi
+    exact cn_leaves_p d w1 lx1 (c :: es.map (·.e)).length (c :: es.map (·.e)) [sb] (g + 1) rfl (by rw [hkx1]; simp) hleaf (by
+      simp only [List.length_cons, List.length_map]; omega)
   -- the loop body on the device
-  obtain ⟨s2, e2, hs2, sl, hsl2, hpx2⟩ := cn_step_dev d (p := p) w1 lx1 lc1 (by rw [pay_opcode sx.2.1]; exact dt.opx)
+  obtain ⟨s2, e2, hs2, sl, hsl2, hpx2⟩ := cn_step_dev d kd (p := p) w1 lx1 lc1 (by rw [pay_opcode sx.2.1]; exact dt.opx)
     (by rw [pay_info sx.2.1]; exact dt.infx) (by rw [pay_handle sx.2.1, dt.thx, hth1]) hkx1 (by rw [pay_value sc.2.1]; exact dt.valc)
     dt.bytes dt.seg4
   have w2 : WF s2.tree := wf_of_sameLinks w1 sl
@@ -476,6 +541,7 @@ theorem cnl_dev (d : Bytes) {s s1 : PState} {h p x c sb off pw : Nat} {seg : Lis
         by rw [pay_handle psb12.2.1, pay_handle cp.fp.1]; exact dt.thsb,
         by rw [kids_sameLinks w1 sl lx1]; exact hkx1, by rw [pc12.2.2.2]; exact hkc1,
         by rw [sl.p, sx.2.2.1]; exact dt.px, by rw [sl.p, sc.2.2.1]; exact dt.pc, by rw [sl.p, cp.fp.2]; exact dt.psb,
+        fun a ha => (args1 a ha).frame (s12 a.e (args1 a ha).le (hes a ha).1), dt.wsok,
         fun _ => by rw [pay_name hpx2], dt.bytes, dt.seg4⟩
     · rw [psb12.2.2.2, cp.hk]; simp
     · refine NodesOK.frame sb kids cp.ok (fun y hy => ?_)
@@ -483,12 +549,79 @@ theorem cnl_dev (d : Bytes) {s s1 : PState} {h p x c sb off pw : Nat} {seg : Lis
       exact s12 y hyl (fun e => hxk (e ▸ hy))
   · intro y hyl hyo hyp
     simp only [Node.objs, List.mem_append, List.mem_cons, List.mem_nil_iff, or_false, not_or] at hyo
-    obtain ⟨⟨hyx, hyc, hysb⟩, hyk⟩ := hyo
+    obtain ⟨⟨hyx, hyc, hysb⟩, hye, hyk⟩ := hyo
     exact (cp.frame y hyl hyk hysb).trans (s12 y (by rw [cp.lv]; exact hyl) hyx)
   · intro y
     by_cases hyx : y = x
     · rw [hyx, pay_info hpx2]; exact cp.inf x
     · rw [hsl2 y hyx]; exact cp.inf y
+
+theorem leaf_noterm (kd : LKind) : ∀ k, k < kd.ws.length + 1 →
+    (9 :: kd.ws.map argTy).getD k 0 ≠ argTypeTermArg ∧ (9 :: kd.ws.map argTy).getD k 0 ≠ argTypeDataRefObj := by
+  intro k hk
+  cases kd
+  · have : k = 0 := by simp [LKind.ws] at hk; omega
+    subst this; decide
+  · have : k = 0 ∨ k = 1 := by simp [LKind.ws] at hk; omega
+    rcases this with e | e <;> subst e <;> decide
+
+/-- **one `Event` / `Mutex` declaration under the scope block `p`**: it gets its name -/
+theorem cnl_leaf (d : Bytes) {s : PState} {kd : LKind} {h p x c off : Nat} {seg : List UInt8} {es : List CArg} {A R : List Nat}
+    (w : WF s.tree) (lp : live s.tree p = true) (hk : K s.tree p = A ++ x :: R)
+    (lt : LeafT d s.tree h p kd x c off seg es false) (hth : s.tableHandle = h) (hnd : (x :: c :: es.map (·.e)).Nodup)
+    (g : Nat) (hg : es.length + 5 ≤ g) :
+    ∃ s2, connectNamedLoop d (g + 1) p x s = connectNamedLoop d g p (lastOf A) s2 ∧ s2 = { s with tree := s2.tree } ∧
+      WF s2.tree ∧ (∀ y, live s2.tree y = live s.tree y) ∧ K s2.tree p = K s.tree p ∧
+      NodeOK d s2.tree h true true p (.leaf kd x c off seg es) ∧
+      (∀ y, live s.tree y = true → y ≠ x → SameAt s.tree s2.tree y) ∧
+      (∀ y, (slot s2.tree y).infoIndex = (slot s.tree y).infoIndex) ∧ s2.tree.pool.size = s.tree.pool.size := by
+  have hxp : x ≠ p := fun e => by have := lt.px; rw [e] at this; exact wf_P_ne_self w lp this
+  -- the recursion: only childless arguments
+  have hleaf : ∀ y ∈ c :: es.map (·.e), K s.tree y = [] ∧ InfoOK (slot s.tree y).infoIndex := by
+    intro y hy
+    rcases List.mem_cons.1 hy with e | hy
+    · rw [e]; exact ⟨lt.kc, by rw [lt.infc]; exact (rowSummary_spec row_507).choose_spec.2.2.2.2.2.1⟩
+    · obtain ⟨a, ha, e⟩ := List.mem_map.1 hy
+      have ca := lt.args a ha
+      rw [← e]
+      refine ⟨ca.ke, ?_⟩
+      rw [ca.inf]
+      obtain ⟨_, _, _, _, _, _, _, hi, _⟩ := const_row a.n a.v
+      exact hi
+  obtain ⟨g1, hg1⟩ : ∃ g1, g = g1 + 1 := ⟨g - 1, by omega⟩
+  have erec : connectNamedObjArgs d g x s = .ok (PRes.ok, s) := by
+    rw [hg1, connectNamedObjArgs, bind_run (objectAt_live' lt.lx), bind_run (derefP_some_ex _), bind_run (getObj_live lt.lx)]
+    show connectNamedLoop d g1 x (La s.tree x) s = _
+    rw [la_eq_lastOf w lt.lx, lt.kx]
+    exact cn_leaves_p d w lt.lx (c :: es.map (·.e)).length (c :: es.map (·.e)) [] g1 rfl (by rw [lt.kx]; simp) hleaf (by
+      simp only [List.length_cons, List.length_map]; omega)
+  obtain ⟨s2, e2, hs2, sl, hsl2, hpx2⟩ := cn_step_named d kd.op (row_leaf kd) (leaf_noterm kd) kd.op_ne.2.2.2.2.2.1 (p := p) w lt.lx lt.lc
+    lt.opx lt.infx (by rw [lt.thx, hth]) lt.kx lt.valc lt.bytes lt.seg4
+  have w2 : WF s2.tree := wf_of_sameLinks w sl
+  have lx2 : live s2.tree x = true := by rw [sl.live]; exact lt.lx
+  have e3 := cn_iter' d g (obj := p) w lt.lx lx2 erec e2
+  have hpvx : Pv s2.tree x = lastOf A := by rw [sl.pv]; exact pv_of_kids w lp hk
+  rw [hpvx] at e3
+  have s12 : ∀ y, live s.tree y = true → y ≠ x → SameAt s.tree s2.tree y :=
+    fun y hy hyx => sameAt_of_links w sl hy (hsl2 y hyx)
+  have hcx : c ≠ x := fun e => by rw [e] at hnd; simp at hnd
+  have hex : ∀ a ∈ es, a.e ≠ x := fun a ha e => by
+    have : x ∈ es.map (·.e) := List.mem_map.2 ⟨a, ha, e⟩
+    simp only [List.nodup_cons, List.mem_cons, not_or] at hnd
+    exact hnd.1.2 this
+  refine ⟨s2, e3, hs2, w2, sl.live, kids_sameLinks w sl lp, ?_, s12, ?_, sl.size⟩
+  · unfold NodeOK
+    have pc := s12 c lt.lc hcx
+    exact ⟨lx2, by rw [sl.live]; exact lt.lc, by rw [pay_opcode hpx2]; exact lt.opx, by rw [pay_info hpx2]; exact lt.infx,
+      by rw [pay_handle hpx2]; exact lt.thx, by rw [pay_opcode pc.2.1]; exact lt.opc, by rw [pay_info pc.2.1]; exact lt.infc,
+      by rw [pay_handle pc.2.1]; exact lt.thc, by rw [pay_value pc.2.1]; exact lt.valc,
+      by rw [kids_sameLinks w sl lt.lx]; exact lt.kx, by rw [pc.2.2.2]; exact lt.kc, by rw [sl.p]; exact lt.px,
+      by rw [sl.p]; exact lt.pc, fun a ha => (lt.args a ha).frame (s12 a.e (lt.args a ha).le (hex a ha)),
+      fun _ => by rw [pay_name hpx2], lt.bytes, lt.seg4, lt.wsok⟩
+  · intro y
+    by_cases hyx : y = x
+    · rw [hyx, pay_info hpx2]
+    · rw [hsl2 y hyx]
 
 theorem sizeN_pos (n : Node) : 1 ≤ sizeN n := by
   cases n <;> simp [sizeN] <;> omega
@@ -534,7 +667,7 @@ theorem cnl (d : Bytes) (h : Nat) : ∀ (k : Nat) (ns : List Node), sizeL ns ≤
       have hpn : p ∉ n.objs := fun hm => pre.hp (by rw [objsL_append]; simp [objsL, hm])
       have liveA : ∀ y ∈ objsL ns', live s.tree y = true := NodesOK.live p ns' okA
       cases n with
-      | name x c kk off q =>
+      | name x c kk off seg dv =>
         unfold NodeOK at okn
         simp only [Node.objs] at ndn hdisj hpn
         have hxc : x ≠ c := by intro e; rw [e] at ndn; simp at ndn
@@ -543,8 +676,8 @@ theorem cnl (d : Bytes) (h : Nat) : ∀ (k : Nat) (ns : List Node), sizeL ns ≤
         obtain ⟨g', rfl⟩ : ∃ g', g = g' + 6 := ⟨g - 6, by simp only [sizeN] at hg; omega⟩
         have hk0 : K s.tree p = ((L ++ tops false ns') ++ [x]) ++ kk :: R := by
           rw [pre.hk, tops_append]; simp [tops]
-        have hlast : lastOf (L ++ tops false (ns' ++ [Node.name x c kk off q])) = kk := by
-          have : L ++ tops false (ns' ++ [Node.name x c kk off q]) = (L ++ tops false ns' ++ [x]) ++ [kk] := by
+        have hlast : lastOf (L ++ tops false (ns' ++ [Node.name x c kk off seg dv])) = kk := by
+          have : L ++ tops false (ns' ++ [Node.name x c kk off seg dv]) = (L ++ tops false ns' ++ [x]) ++ [kk] := by
             rw [tops_append]; simp [tops]
           rw [this, lastOf_snoc]
         obtain ⟨s1, e1, hs1, w1, hl1, hk1, nt1, fr1, pp1, ppar1, inf1, sz1⟩ := cnl_name d w pre.lp hk0 okn hth hxc hxk hck g'
@@ -584,13 +717,21 @@ theorem cnl (d : Bytes) (h : Nat) : ∀ (k : Nat) (ns : List Node), sizeL ns ≤
             rw [objsL_append] at hyo
             simp only [objsL, Node.objs, List.append_nil, List.mem_append, List.mem_cons, List.mem_nil_iff, or_false, not_or] at hyo
             exact (fr1 y hyl hyo.2.1 hyo.2.2.1 hyo.2.2.2 hyp).trans (cp.frame y (by rw [hl1]; exact hyl) hyo.1 hyp)
-      | dev x c sb off pw seg kids =>
+      | dev kd x c sb off pw seg es kids =>
         unfold NodeOK at okn
         obtain ⟨dt, hksb, okk⟩ := okn
-        have hobj : (Node.dev x c sb off pw seg kids).objs = [x, c, sb] ++ objsL kids := by simp [Node.objs]
+        have hobj : (Node.dev kd x c sb off pw seg es kids).objs = [x, c, sb] ++ (es.map (·.e) ++ objsL kids) := by simp [Node.objs]
         rw [hobj] at ndn hdisj hpn
         rw [List.nodup_append] at ndn
-        obtain ⟨nd3, ndk, hd3k⟩ := ndn
+        obtain ⟨nd3, ndek, hd3k'⟩ := ndn
+        rw [List.nodup_append] at ndek
+        obtain ⟨nde, ndk, hdek⟩ := ndek
+        have hd3k : ∀ a ∈ [x, c, sb], ∀ b ∈ objsL kids, a ≠ b := fun a ha b hb => hd3k' a ha b (List.mem_append_right _ hb)
+        have hes : ∀ a ∈ es, a.e ≠ x ∧ a.e ≠ sb ∧ a.e ∉ objsL kids := fun a ha =>
+          ⟨fun e => hd3k' x (by simp) a.e (List.mem_append_left _ (List.mem_map.2 ⟨a, ha, rfl⟩)) e.symm,
+           fun e => hd3k' sb (by simp) a.e (List.mem_append_left _ (List.mem_map.2 ⟨a, ha, rfl⟩)) e.symm,
+           fun hm => hdek a.e (List.mem_map.2 ⟨a, ha, rfl⟩) a.e hm rfl⟩
+        have hesl : es.length = kd.ws.length := by rw [← dt.wsok, List.length_map]
         have hxc : x ≠ c := by intro e; rw [e] at nd3; simp at nd3
         have hxsb : x ≠ sb := by intro e; rw [e] at nd3; simp at nd3
         have hcsb : c ≠ sb := by intro e; rw [e] at nd3; simp at nd3
@@ -604,15 +745,15 @@ theorem cnl (d : Bytes) (h : Nat) : ∀ (k : Nat) (ns : List Node), sizeL ns ≤
         obtain ⟨g', rfl⟩ : ∃ g', g = g' + 4 := ⟨g - 4, by omega⟩
         have hk0 : K s.tree p = (L ++ tops false ns') ++ x :: R := by
           rw [pre.hk, tops_append]; simp [tops]
-        have hlast : lastOf (L ++ tops false (ns' ++ [Node.dev x c sb off pw seg kids])) = x := by
-          have : L ++ tops false (ns' ++ [Node.dev x c sb off pw seg kids]) = (L ++ tops false ns') ++ [x] := by
+        have hlast : lastOf (L ++ tops false (ns' ++ [Node.dev kd x c sb off pw seg es kids])) = x := by
+          have : L ++ tops false (ns' ++ [Node.dev kd x c sb off pw seg es kids]) = (L ++ tops false ns') ++ [x] := by
             rw [tops_append]; simp [tops]
           rw [this, lastOf_snoc]
         -- the contents
         have prek : CPre d s.tree h sb [] [] kids := ⟨w, dt.lsb, by simpa using hksb, okk, ndk, hsbk⟩
         obtain ⟨s1, ek, hs1, cpk⟩ := ih kids (by omega) s g' sb [] [] prek hth (by omega)
         obtain ⟨s2, e2, hs2, w2, hl2, hk2, nok2, fr2, pp2, ppar2, inf2, sz2⟩ := cnl_dev d (pw := pw) w pre.lp hk0 dt hksb hth hxc hxsb hcsb hxk hck hpk
-          hpsb g' (by omega) ek hs1 cpk
+          hes hpsb g' (by omega) (by omega) ek hs1 cpk
         have sameA : ∀ y ∈ objsL ns', SameAt s.tree s2.tree y := by
           intro y hy
           refine fr2 y (liveA y hy) (fun hm => ?_) (fun e => hpA (e ▸ hy))
@@ -626,12 +767,12 @@ theorem cnl (d : Bytes) (h : Nat) : ∀ (k : Nat) (ns : List Node), sizeL ns ≤
           rw [tops_append]
           simp [tops]
           try omega
-        · have livn : ∀ y ∈ (Node.dev x c sb off pw seg kids).objs, live s2.tree y = true := by
+        · have livn : ∀ y ∈ (Node.dev kd x c sb off pw seg es kids).objs, live s2.tree y = true := by
             intro y hy
-            have := NodesOK.live p [Node.dev x c sb off pw seg kids] (by unfold NodesOK; exact ⟨nok2, trivial⟩) y
+            have := NodesOK.live p [Node.dev kd x c sb off pw seg es kids] (by unfold NodesOK; exact ⟨nok2, trivial⟩) y
               (by simpa [objsL] using hy)
             exact this
-          have sa : ∀ y ∈ (Node.dev x c sb off pw seg kids).objs, SameAt s2.tree s'.tree y := fun y hy =>
+          have sa : ∀ y ∈ (Node.dev kd x c sb off pw seg es kids).objs, SameAt s2.tree s'.tree y := fun y hy =>
             cp.frame y (livn y hy) (fun hm => hdisj y hm y (by rw [← hobj]; exact hy) rfl)
               (fun e => hpn (by rw [← hobj]; exact e ▸ hy))
           refine ⟨cp.w, ?_, ?_, fun y => by rw [cp.lv, hl2], ?_, ⟨by rw [cp.fp.1, pp2], by rw [cp.fp.2, ppar2]⟩,
@@ -645,11 +786,64 @@ theorem cnl (d : Bytes) (h : Nat) : ∀ (k : Nat) (ns : List Node), sizeL ns ≤
             rw [objsL_append] at hyo
             simp only [objsL, List.append_nil, List.mem_append, not_or] at hyo
             exact (fr2 y hyl hyo.2 hyp).trans (cp.frame y (by rw [hl2]; exact hyl) hyo.1 hyp)
+      | leaf kd x c off seg es =>
+        unfold NodeOK at okn
+        have hobj : (Node.leaf kd x c off seg es).objs = x :: c :: es.map (·.e) := by simp [Node.objs]
+        rw [hobj] at ndn hdisj hpn
+        have hesl : es.length ≤ 1 := by
+          have hwl : kd.ws.length ≤ 1 := by cases kd <;> simp [LKind.ws]
+          have := congrArg List.length okn.wsok
+          rw [List.length_map] at this
+          omega
+        simp only [sizeN] at hsz hg
+        obtain ⟨g', rfl⟩ : ∃ g', g = g' + 1 := ⟨g - 1, by omega⟩
+        have hk0 : K s.tree p = (L ++ tops false ns') ++ x :: R := by
+          rw [pre.hk, tops_append]; simp [tops]
+        have hlast : lastOf (L ++ tops false (ns' ++ [Node.leaf kd x c off seg es])) = x := by
+          have : L ++ tops false (ns' ++ [Node.leaf kd x c off seg es]) = (L ++ tops false ns') ++ [x] := by
+            rw [tops_append]; simp [tops]
+          rw [this, lastOf_snoc]
+        obtain ⟨s2, e2, hs2, w2, hl2, hk2, nok2, fr2, inf2, sz2⟩ := cnl_leaf d w pre.lp hk0 okn hth ndn g' (by omega)
+        have hxp : x ≠ p := fun e => hpn (by simp [e])
+        have sameA : ∀ y ∈ objsL ns', SameAt s.tree s2.tree y := by
+          intro y hy
+          exact fr2 y (liveA y hy) (fun e => hdisj y hy x (by simp) e)
+        have sp := fr2 p pre.lp (fun e => hxp e.symm)
+        have pre2 : CPre d s2.tree h p L (x :: R) ns' :=
+          ⟨w2, by rw [hl2]; exact pre.lp, by rw [hk2, hk0], NodesOK.frame p ns' okA sameA, ndA, hpA⟩
+        obtain ⟨s', e', hs', cp⟩ := ih ns' (by omega) s2 g' p L (x :: R) pre2 (by rw [hs2]; exact hth) (by omega)
+        refine ⟨s', ?_, by rw [hs', hs2], ?_⟩
+        · rw [hlast, e2, e']
+          congr 1
+          rw [tops_append]
+          simp [tops]
+          try omega
+        · have livn : ∀ y ∈ (Node.leaf kd x c off seg es).objs, live s2.tree y = true := by
+            intro y hy
+            have := NodesOK.live p [Node.leaf kd x c off seg es] (by unfold NodesOK; exact ⟨nok2, trivial⟩) y
+              (by simpa [objsL] using hy)
+            exact this
+          have sa : ∀ y ∈ (Node.leaf kd x c off seg es).objs, SameAt s2.tree s'.tree y := fun y hy =>
+            cp.frame y (livn y hy) (fun hm => hdisj y hm y (by rw [← hobj]; exact hy) rfl)
+              (fun e => hpn (by rw [← hobj]; exact e ▸ hy))
+          refine ⟨cp.w, ?_, ?_, fun y => by rw [cp.lv, hl2], ?_, ⟨by rw [cp.fp.1]; exact sp.2.1, by rw [cp.fp.2]; exact sp.2.2.1⟩,
+            fun y => by rw [cp.inf, inf2], by rw [cp.sz, sz2]⟩
+          · rw [cp.hk, tops_append]; simp [tops]
+          · rw [NodesOK_append]
+            refine ⟨cp.ok, ?_⟩
+            unfold NodesOK
+            exact ⟨NodeOK.frame p _ nok2 sa, trivial⟩
+          · intro y hyl hyo hyp
+            rw [objsL_append] at hyo
+            simp only [objsL, List.append_nil, List.mem_append, not_or] at hyo
+            rw [hobj] at hyo
+            exact (fr2 y hyl (fun e => hyo.2 (by simp [e]))).trans (cp.frame y (by rw [hl2]; exact hyl) hyo.1 hyp)
 
 mutual
 theorem sizeN_prog : ∀ n : Node, sizeP n.prog = sizeN n
-  | .name _ _ _ _ _ => by simp [Node.prog, sizeP, sizeN]
-  | .dev _ _ _ _ _ _ kids => by simp [Node.prog, sizeP, sizeN, sizeL_progs kids]
+  | .name _ _ _ _ _ _ => by simp [Node.prog, sizeP, sizeN]
+  | .dev _ _ _ _ _ _ _ _ kids => by simp [Node.prog, sizeP, sizeN, sizeL_progs kids]
+  | .leaf _ _ _ _ _ _ => by simp [Node.prog, sizeP, sizeN]
 theorem sizeL_progs : ∀ ns : List Node, sizePs (progs ns) = sizeL ns
   | [] => by simp [progs, sizePs, sizeL]
   | n :: ns => by simp [progs, sizePs, sizeL, sizeN_prog n, sizeL_progs ns]
